@@ -56,6 +56,8 @@ type OptScenario struct {
 	TimeoutMs int      `json:"timeout_ms"`
 	Allowed   []string `json:"allowed"`
 	Seed      uint64   `json:"seed"`
+	// GetterOracle: the case is an Options value for the documentation oracle of the getters (docOracle), not a DB scenario
+	GetterOracle bool `json:"getter_oracle,omitempty"`
 }
 
 type OptOutcome struct {
